@@ -22,6 +22,34 @@ if "pylops" not in sys.modules:          # stand-in (pylops is not installed): l
     _p.Diagonal = None
     sys.modules["pylops"] = _p
 import numpy as np
+def _install_nn_stand_in():
+    """stand-in for the optional C library behind autoarray.util.nn.nn_py (natural-neighbour interpolation; not built here):
+    a deterministic inverse-distance scheme over the 3 nearest mesh points with the same signatures / shapes / -1 padding.
+    It lets MapperVoronoi.mapping_matrix (hence MapperValued.magnification_via_mesh_from on a Voronoi mesh) be evaluated."""
+    name = "autoarray.util.nn.nn_py"
+    if name in sys.modules: return
+    mod = types.ModuleType(name)
+    def _nearest(x_in, y_in, x_target, y_target, k):
+        pin = np.stack((np.asarray(x_in, float), np.asarray(y_in, float)), axis=1)
+        pt = np.stack((np.asarray(x_target, float), np.asarray(y_target, float)), axis=1)
+        d2 = ((pt[:, None, :] - pin[None, :, :]) ** 2).sum(axis=2)
+        idx = np.argsort(d2, axis=1, kind="stable")[:, :k]
+        w = 1.0 / (1.0e-3 + np.take_along_axis(d2, idx, axis=1))
+        return idx, w / w.sum(axis=1)[:, None]
+    def natural_interpolation_weights(x_in, y_in, x_target, y_target, max_nneighbours):
+        k = min(3, len(x_in), max_nneighbours)
+        idx, w = _nearest(x_in, y_in, x_target, y_target, k)
+        weights = np.zeros((len(x_target), max_nneighbours)); indexes = np.zeros((len(x_target), max_nneighbours), dtype=np.intc) - 1
+        weights[:, :k] = w; indexes[:, :k] = idx
+        return weights, indexes
+    def natural_interpolation(x_in, y_in, z_in, x_target, y_target):
+        k = min(3, len(x_in))
+        idx, w = _nearest(x_in, y_in, x_target, y_target, k)
+        return (np.asarray(z_in, float)[idx] * w).sum(axis=1)
+    mod.natural_interpolation_weights = natural_interpolation_weights
+    mod.natural_interpolation = natural_interpolation
+    sys.modules[name] = mod
+_install_nn_stand_in()
 from harness.common import cz, cnat, cbool, clist, ctup, import_aa
 
 ID = "C11"
@@ -167,19 +195,27 @@ KINDS = {
 }
 SIZE_EXC = ("ArrayException", "GridException", "VectorYXException")
 
+def dec_num(n):
+    """inverse of enc_num"""
+    n = int(n)
+    if n == NAN: return float("nan")
+    if n == NAN + 1: return float("inf")
+    if n == NAN + 2: return float("-inf")
+    if abs(n) < 2 ** 52: return float(n)
+    return float(np.int64(n).view(np.float64))
 def decode(contents, kind, shape):
-    """model contents (integers) -> ndarray of the object's array shape"""
-    a = np.array(contents, dtype=float)
+    """model contents (integers; non-integral floats as IEEE bit patterns) -> ndarray of the object's array shape"""
+    a = np.array([dec_num(x) for x in contents], dtype=float)
     if kind == "vis":
         a = a.reshape(-1, 2); return (a[:, 0] + 1j * a[:, 1]).reshape(shape)
     if kind == "mask": return a.reshape(shape).astype(bool)
     return a.reshape(shape)
 
-def make(kind, values, mask2d, store_native):
+def make(kind, values, mask2d, store_native, normalize=False):
     """the public constructor of each kind, with the fixed side attributes"""
     aa = import_aa()
     if kind == "array": return aa.Array2D(values=values, mask=_mask(aa, mask2d), store_native=store_native)
-    if kind == "kernel": return aa.Kernel2D(values=values, mask=_mask(aa, mask2d), store_native=store_native)
+    if kind == "kernel": return aa.Kernel2D(values=values, mask=_mask(aa, mask2d), store_native=store_native, normalize=normalize)
     if kind == "grid":
         return aa.Grid2D(values=values, mask=_mask(aa, mask2d), store_native=store_native, over_sampling=aa.OverSamplingUniform(sub_size=SUB))
     if kind == "vector":
@@ -239,7 +275,8 @@ def twin(kind, mask2d, native, contents, shape):
     base = make(kind, np.zeros(base_shape), mask2d, native)
     return base.with_new_array(values)
 
-RAW = {("mapper", "mapping_matrix")}      # quantities the model computes with (everything else is opaque to it)
+NORMQ = "__normalized__"
+RAW = {("mapper", "mapping_matrix"), ("kernel", NORMQ)}      # quantities the model computes with (everything else is opaque to it)
 def digest(enc):
     """opaque values travel as a 2 x 60-bit digest of their full encoding (keeps the Coq terms small)"""
     h = hashlib.sha256(repr(enc).encode()).digest()
@@ -373,9 +410,29 @@ class Runner:
                 csrc = f"(SObj {cnat(src[1])})"
             n = int(np.size(val)) * (2 if kind == "vis" else 1)
             mm = mmask_of(kind, mask2d, n)
-            cop = f"OConstruct {csrc} {cmask(mm)} {cbool(is_native)} {cbool(sn)}"
+            norm = bool(s.get("normalize"))
+            via = s.get("via", "ctor")
+            cnorm = "None"
+            if norm:
+                # the pure value of the normalisation: measured on private copies (twins) of the source, never on the source
+                q = self.qid("kernel", sn, NORMQ)
+                cnorm = f"(Some {cnat(q)})"
+                def private():
+                    if src[0] == "in": return np.array(val)
+                    return twin(so.kind, so.mask2d, so.native, self.obj_contents(so), np.shape(arr_of(so.kind, so.real)))
+                try:
+                    pre = enc_arr(make(kind, private(), mask2d, sn)._array)
+                    post = enc_arr(make(kind, private(), mask2d, sn, normalize=True)._array)
+                    self.table[(q, tuple(mm), tuple(pre))] = post
+                except Exception as e:   # noqa
+                    if type(e).__name__ not in SIZE_EXC: raise
+            cop = f"OConstruct {csrc} {cmask(mm)} {cbool(is_native)} {cbool(sn)} {cnorm}"
             try:
-                real = make(kind, val, mask2d, sn)
+                if via == "ctor": real = make(kind, val, mask2d, sn, normalize=norm)
+                elif via == "native": real = val.native              # Array2D / Grid2D / VectorYX2D (values=self, mask=self.mask, store_native=True)
+                elif via == "slim": real = val.slim
+                elif via == "normalized": real = val.normalized      # Kernel2D(values=self, mask=self.mask, normalize=True)
+                else: raise ValueError(via)
             except Exception as e:   # noqa
                 if type(e).__name__ in SIZE_EXC: return cop, ("raise", "ArrayException")
                 raise
@@ -624,8 +681,40 @@ def build_graph(cfg):
         reg = aa.reg.Constant(coefficient=coeff) if coeff is not None else None
         mappers.append(aa.Mapper(mapper_grids=mg, over_sampler=grid.over_sampler, regularization=reg))
     settings = aa.SettingsInversion(use_w_tilde=cfg["w_tilde"], use_positive_only_solver=cfg.get("positive", False),
-                                    no_regularization_add_to_curvature_diag_value=1.0)
-    return ds, mappers, settings, [m, dv, nv, pv, mask, data, noise, psf, osd, settings]
+                                    no_regularization_add_to_curvature_diag_value=1.0,
+                                    force_edge_pixels_to_zeros=cfg.get("force_edge", True),
+                                    force_edge_image_pixels_to_zeros=cfg.get("edge_image", False),
+                                    use_w_tilde_numpy=cfg.get("w_tilde_numpy", False), use_source_loop=cfg.get("source_loop", False))
+    owned = [m, dv, nv, pv, mask, data, noise, psf, osd, settings]
+    # linear objects that are not mappers (unregularized unless stated), placed before and / or after the mappers
+    before, after = [], []
+    for f in cfg.get("funcs", []):
+        cols = np.array(f["cols"], dtype=float).reshape(int((~m).sum()), -1)
+        fo = func_list_cls()(grid=aa.Grid2D.from_mask(mask=mask), columns=cols,
+                             regularization=aa.reg.Constant(coefficient=f["coeff"]) if f.get("coeff") else None)
+        (before if f["pos"] == "before" else after).append(fo)
+        owned.append(cols)
+    cfg_objs = before + mappers + after
+    mappers = MapperList(mappers); mappers.objs = cfg_objs
+    return ds, mappers, settings, owned
+
+class MapperList(list):
+    """the mappers of a graph; .objs is the full linear_obj_list (non-mapper objects before / after them)"""
+    objs = None
+_FUNC_CLS = []
+def func_list_cls():
+    if not _FUNC_CLS:
+        from autoarray.inversion.linear_obj.func_list import AbstractLinearObjFuncList
+        class HFuncList(AbstractLinearObjFuncList):
+            """a linear object whose mapping matrix is given column by column (stands for a list of light-profile images)"""
+            def __init__(self, grid, columns, regularization=None):
+                super().__init__(grid=grid, regularization=regularization); self._columns = columns
+            @property
+            def params(self): return self._columns.shape[1]
+            @property
+            def mapping_matrix(self): return self._columns
+        _FUNC_CLS.append(HFuncList)
+    return _FUNC_CLS[0]
 
 PRELOADABLE = {"curvature_matrix": "curvature_matrix", "curvature_matrix_mapper_diag": "_curvature_matrix_mapper_diag",
                "regularization_matrix": "regularization_matrix", "operated_mapping_matrix": "operated_mapping_matrix"}
@@ -646,7 +735,7 @@ def make_inversion(cfg, preload_F=None):
         pre = aa.Preloads(**pk)
         kw["preloads"] = pre
         owned = owned + [pre] + list(pk.values())
-    inv = aa.Inversion(dataset=ds, linear_obj_list=mappers, settings=settings, **kw)
+    inv = aa.Inversion(dataset=ds, linear_obj_list=mappers.objs, settings=settings, **kw)
     return inv, ds, mappers, owned
 
 def bits(a):
@@ -671,7 +760,7 @@ def run_inv(inp):
     kw = {}
     if P is not None: kw["preloads"] = aa.Preloads(curvature_matrix=P)
     if PD is not None: kw["preloads"] = aa.Preloads(curvature_matrix_mapper_diag=PD)
-    inv = aa.Inversion(dataset=ds, linear_obj_list=mappers, settings=settings, **kw)
+    inv = aa.Inversion(dataset=ds, linear_obj_list=mappers.objs, settings=settings, **kw)
     owned_fp = leaves(owned)
     out = []
     for q in inp["qs"]:
@@ -794,6 +883,346 @@ def run_dsderive(inp):
     if bad: res["detail"] = "; ".join(bad[:4])
     return res
 
+# ----------------------------------------------------------------------------- object REUSE: shared parts, several inversions
+def build_reuse(inp, only=None):
+    """datasets (same mask / psf, own data and noise), mappers, ONE settings object, optionally ONE Preloads object, and the
+    inversions listed in inp["invs"], each naming the dataset and the mappers it uses.  only=k: inversion k alone, built from parts
+    nobody else uses (the twin)."""
+    aa = import_aa()
+    base = inp["base"]
+    invs = inp["invs"] if only is None else [inp["invs"][only]]
+    dss, mps, owned = {}, {}, []
+    def cfg_for(d, mlist):
+        return dict(base, data=inp["datasets"][d]["data"], noise=inp["datasets"][d]["noise"], mappers=[inp["mappers"][k] for k in mlist])
+    settings = None
+    pre = None
+    out = []
+    for iv in invs:
+        d = iv["ds"]
+        ds, mappers, st, own = build_graph(cfg_for(d, iv["mappers"]))
+        owned += own
+        if settings is None: settings = st
+        if d in dss: ds = dss[d]
+        else: dss[d] = ds
+        objs = []
+        for k, mp in zip(iv["mappers"], mappers):
+            if k not in mps: mps[k] = mp
+            objs.append(mps[k])
+        kw = {}
+        if inp.get("preload"):
+            if pre is None:
+                # the caller's precomputed matrices: they depend on the mappers (and the psf) only, so one Preloads object may
+                # legitimately serve every inversion that uses the same mappers
+                src = aa.Inversion(dataset=build_graph(cfg_for(d, iv["mappers"]))[0], linear_obj_list=build_graph(cfg_for(d, iv["mappers"]))[1],
+                                   settings=aa.SettingsInversion(use_w_tilde=base["w_tilde"], no_regularization_add_to_curvature_diag_value=1.0))
+                arrs = {n: np.array(getattr(src, n)) for n in inp["preload"]}
+                pre = aa.Preloads(**arrs); pre._for = list(iv["mappers"])
+                owned += [pre] + list(arrs.values())
+            if pre._for == list(iv["mappers"]): kw["preloads"] = pre
+        out.append((aa.Inversion(dataset=ds, linear_obj_list=objs, settings=settings, **kw), ds, objs))
+    return out, owned
+_REUSE_TWINS = {}
+def run_reuse(inp):
+    tw = _REUSE_TWINS.setdefault(str(sorted((k, str(v)) for k, v in inp.items() if k != "reads")), {})
+    built, owned = build_reuse(inp)
+    from autoarray.inversion.inversion import factory
+    singletons = [factory.inversion_from.__defaults__, factory.inversion_imaging_from.__defaults__]
+    fp0 = leaves([owned, singletons])
+    bad = []
+    for k, who, name in inp["reads"]:
+        if (k, who, name) not in tw:
+            tb, _ = build_reuse(inp, only=k)
+            tw[(k, who, name)] = graph_read(tb[0], who, name)
+        if graph_read(built[k], who, name) != tw[(k, who, name)]:
+            bad.append(f"inversion {k}: {who}.{name} differs from the twin built from unshared parts")
+    ch = leaves_changed(fp0, leaves([owned, singletons]))
+    if ch: bad.append("caller-owned input changed: " + ",".join(ch[:4]))
+    shared = "+".join(x for x, c in (("dataset", len({iv["ds"] for iv in inp["invs"]}) < len(inp["invs"])),
+                                     ("mapper", len({tuple(iv["mappers"]) for iv in inp["invs"]}) < len(inp["invs"])),
+                                     ("preloads", bool(inp.get("preload")))) if c)
+    res = {"coq": None, "out": {"reads": len(inp["reads"]), "bad": bad[:5]}, "py_ok": not bad, "nontrivial": len(inp["reads"]) >= 3,
+           "kind": "reuse:" + (shared or "settings")}
+    if bad: res["detail"] = "; ".join(bad[:5])
+    return res
+def gen_reuse(rng):
+    H, W = rng.randint(5, 6), rng.randint(5, 6)
+    base = {"shape": [H, W], "holes": [], "w_tilde": rng.random() < 0.5, "positive": rng.random() < 0.2, "sub": 1}
+    nd = rng.choice([1, 2, 2])
+    datasets = [{"data": [rng.randint(0, 20) for _ in range(H * W)], "noise": [rng.choice([1, 2, 4]) for _ in range(H * W)]} for _ in range(nd)]
+    mappers = [[3, 3, rng.choice([1.0, 2.0])], [2, 2, 1.0], [3, 2, 4.0]]
+    invs = []
+    for _ in range(rng.randint(2, 3)):
+        invs.append({"ds": rng.randrange(nd), "mappers": rng.choice([[0], [0], [1], [0, 1], [2]])})
+    inp = {"op": "reuse", "base": base, "datasets": datasets, "mappers": mappers, "invs": invs,
+           "preload": rng.choice([None, None, ["regularization_matrix"], ["operated_mapping_matrix"]])}
+    reads = []
+    for _ in range(rng.randint(4, 12)):
+        k = rng.randrange(len(invs))
+        w = rng.choice(["inv"] * 5 + ["mapper0", "ds", "grids"])
+        reads.append([k, w, rng.choice(GRAPH_Q["mapper" if w.startswith("mapper") else w])])
+    inp["reads"] = reads
+    return inp
+
+# ----------------------------------------------------------------------------- read -> user edits in place -> re-read
+EDIT_Q = {"array": KINDS["array"].plain + ["in_counts"], "kernel": KINDS["kernel"].plain, "grid": KINDS["grid"].plain + ["is_uniform"],
+          "vector": KINDS["vector"].plain, "vis": KINDS["vis"].plain + ["amplitudes", "phases"],
+          "mask": KINDS["mask"].plain + ["circular_radius", "native_for_slim", "edge", "unmasked_grid"],
+          "dataset": ["signal_to_noise_map", "signal_to_noise_max", "data", "noise_map"]}
+def edit_read(kind, obj, name):
+    try:
+        if name == "native_for_slim": return enc_val(obj.derive_indexes.native_for_slim)
+        if name == "edge": return enc_val(obj.derive_mask.edge)
+        if name == "unmasked_grid": return enc_val(obj.derive_grid.unmasked)
+        return enc_val(getattr(obj, name))
+    except Exception as e:   # noqa
+        return exc_code(e)
+def run_edit(inp):
+    """construct from the caller's array; read; the USER assigns into the object (obj[key] = value: documented numpy-style use);
+    read again: every quantity that was not read before the edit must be the one of a freshly built object holding the edited
+    contents (a quantity read before the edit may be a cached_property of the present code: it is only required to be stable),
+    and the caller's array must still hold what it held (the constructor copied it)."""
+    aa = import_aa()
+    kind, mask2d, sn = inp["kind"], inp["mask"], bool(inp["store_native"])
+    base = "array" if kind == "dataset" else kind
+    nd = decode(inp["v"], base, inp["shape"])
+    nd0 = nd.copy()
+    obj = make(base, nd, mask2d, sn)
+    arr_obj = obj
+    if kind == "dataset": obj = make_dataset(arr_obj)
+    cached = set(KINDS[kind].cached) | {"is_uniform", "amplitudes", "phases", "circular_radius"}
+    bad = []
+    seen = set()
+    for q in inp["pre"]:
+        edit_read(kind, obj, q); seen.add(q)
+    for (key, val) in inp["edits"]:
+        k = tuple(key) if len(key) > 1 else key[0]
+        if kind == "mask": arr_obj[k] = bool(val)
+        elif kind == "vis": arr_obj[k] = complex(val, -val)
+        else: arr_obj[k] = float(val)
+    contents = enc_arr(arr_of(base, arr_obj))
+    t = twin(kind, mask2d, sn, contents, np.shape(arr_of(base, arr_obj)))
+    for q in inp["post"]:
+        got = edit_read(kind, obj, q)
+        if q in seen and q in cached: continue
+        if got != edit_read(kind, t, q): bad.append(f"{kind}.{q} after an in-place edit is not the quantity of the edited contents")
+    if kind != "vis" and not np.array_equal(nd, nd0, equal_nan=True):      # Visibilities(ndarray) stores the caller's array by design
+        bad.append("the caller's array changed when the constructed object was edited")
+    res = {"coq": None, "out": {"bad": bad[:4]}, "py_ok": not bad, "nontrivial": bool(inp["pre"]) and bool(inp["edits"]), "kind": "edit:" + kind}
+    if bad: res["detail"] = "; ".join(bad[:4])
+    return res
+def gen_edit(rng):
+    kind = rng.choice(["array", "array", "grid", "mask", "vis", "kernel", "vector", "dataset", "dataset"])
+    H, W = (rng.randint(3, 5), rng.randint(3, 5))
+    mask = rand_mask(rng, H, W, p=rng.choice([0.0, 0.2]), border=False)
+    if kind == "dataset": H, W = 5, rng.randint(5, 6); mask = rand_mask(rng, H, W, p=0.0, border=True)
+    per = 2 if kind in ("grid", "vector") else 1
+    native = rng.random() < 0.5
+    sn = rng.random() < 0.5
+    if kind == "vis":
+        n = rng.randint(2, 5); shape = [n]; v = [rng.choice([-1, 1]) * rng.randint(1, 9) for _ in range(2 * n)]; native = sn = False
+    elif kind == "mask":
+        shape = [H, W]; v = [int(b) for r in mask for b in r]; native = sn = True
+    else:
+        shape = ([H, W] if native else [count_false(mask)]) + ([2] if per == 2 else [])
+        v = [rng.randint(1, 9) for _ in range(int(np.prod(shape)))]
+    # the edited entry: an unmasked pixel of the stored array
+    pts = [(y, x) for y in range(H) for x in range(W) if not mask[y][x]]
+    edits = []
+    for _ in range(rng.randint(1, 2)):
+        if kind == "vis": key = [rng.randrange(shape[0])]
+        elif kind == "mask": key = list(rng.choice([(y, x) for y in range(H) for x in range(W)]))
+        elif sn: key = list(rng.choice(pts)) + ([rng.randrange(2)] if per == 2 else [])
+        else: key = [rng.randrange(len(pts))] + ([rng.randrange(2)] if per == 2 else [])
+        edits.append([key, rng.randint(0, 1) if kind == "mask" else rng.randint(10, 30)])
+    qs = EDIT_Q[kind]
+    pre = rng.sample(qs, rng.randint(1, min(4, len(qs))))
+    post = sorted(set(pre[:2] + rng.sample(qs, rng.randint(1, min(4, len(qs))))))
+    return {"op": "edit", "kind": kind, "mask": mask, "store_native": sn, "shape": shape, "v": v, "pre": pre, "edits": edits, "post": post}
+
+# ----------------------------------------------------------------------------- fits: FitImaging -> dataset -> inversion
+FIT_Q = ["data", "noise_map", "model_data", "signal_to_noise_map", "residual_map", "normalized_residual_map", "chi_squared_map",
+         "chi_squared", "noise_normalization", "log_likelihood", "log_likelihood_with_regularization", "log_evidence", "figure_of_merit",
+         "residual_flux_fraction_map", "reduced_chi_squared", "grids", "mask"]
+_FIT_CLS = []
+def fit_cls():
+    if not _FIT_CLS:
+        aa = import_aa()
+        from autoconf import cached_property
+        class HFit(aa.FitImaging):
+            """the way FitImaging is specialised downstream: the model image is the inversion's reconstruction of the data"""
+            def __init__(self, dataset, linear_obj_list, settings, preloads=None, **kw):
+                super().__init__(dataset=dataset, **kw)
+                self._objs, self._settings, self._pre = linear_obj_list, settings, preloads
+            @cached_property
+            def inversion(self):
+                if self._objs is None: return None
+                kw = {} if self._pre is None else {"preloads": self._pre}
+                return import_aa().Inversion(dataset=self.dataset, linear_obj_list=self._objs, settings=self._settings, **kw)
+            @property
+            def model_data(self):
+                if self._objs is None: return self._settings            # a fit of a given model image (no inversion)
+                return self.inversion.mapped_reconstructed_data
+        _FIT_CLS.append(HFit)
+    return _FIT_CLS[0]
+def build_fit(cfg):
+    aa = import_aa()
+    ds, mappers, settings, owned = build_graph(cfg)
+    dm = aa.DatasetModel(background_sky_level=cfg.get("sky", 0.0), grid_offset=tuple(cfg.get("offset", (0.0, 0.0))))
+    if cfg.get("model") is not None:
+        mv = np.array(cfg["model"], dtype=float).reshape(cfg["shape"])
+        model = aa.Array2D(values=mv, mask=ds.mask, store_native=bool(cfg.get("native", False)))
+        fit = fit_cls()(dataset=ds, linear_obj_list=None, settings=model, use_mask_in_fit=cfg.get("use_mask", False), dataset_model=dm)
+        owned = owned + [mv, model]
+    else:
+        fit = fit_cls()(dataset=ds, linear_obj_list=mappers.objs, settings=settings, use_mask_in_fit=False, dataset_model=dm)
+    return fit, ds, mappers, owned + [dm]
+def fit_read(parts, who, name):
+    fit, ds, mappers = parts
+    if who == "fit":
+        try:
+            v = getattr(fit, name)
+            if name == "grids": return str(view_grids(v))
+            return str(enc_val(v))
+        except Exception as e:   # noqa
+            return "EXC " + type(e).__name__
+    if who == "inv" and fit.inversion is None: return "no inversion"
+    return graph_read((fit.inversion, ds, mappers), who, name)
+_FIT_TWINS = {}
+def run_fit(inp):
+    cfg = inp["cfg"]
+    tw = _FIT_TWINS.setdefault(str(sorted(cfg.items())), {})
+    fit, ds, mappers, owned = build_fit(cfg)
+    fp0 = leaves(owned)
+    bad = []
+    for who, name in inp["reads"]:
+        if (who, name) not in tw:
+            tf, tds, tm, _ = build_fit(cfg)
+            tw[(who, name)] = fit_read((tf, tds, tm), who, name)
+        if fit_read((fit, ds, mappers), who, name) != tw[(who, name)]: bad.append(f"{who}.{name} differs from the never-read twin")
+    ch = leaves_changed(fp0, leaves(owned))
+    if ch: bad.append("caller-owned input changed: " + ",".join(ch[:4]))
+    res = {"coq": None, "out": {"reads": len(inp["reads"]), "bad": bad[:5]}, "py_ok": not bad, "nontrivial": len(inp["reads"]) >= 3,
+           "kind": "fit:" + (type(fit.inversion).__name__ if cfg.get("model") is None else "given-model" + (":masked" if cfg.get("use_mask") else ""))}
+    if bad: res["detail"] = "; ".join(bad[:5])
+    return res
+def gen_fit(rng):
+    cfg = rand_cfg(rng)
+    cfg["preloads"] = []
+    cfg["sky"] = rng.choice([0.0, 0.0, 1.5]); cfg["offset"] = rng.choice([[0.0, 0.0], [0.0, 0.0], [0.5, -0.25]])
+    if rng.random() < 0.3:
+        # a fit of a given model image; natively stored data go with use_mask_in_fit (the masked fit_util functions take 2D arrays;
+        # the inversions take slim data only, so the inversion-based fits below are slim and unmasked-in-fit)
+        cfg["native"] = rng.random() < 0.7; cfg["use_mask"] = cfg["native"] and rng.random() < 0.7
+        cfg["model"] = [rng.randint(0, 20) for _ in range(cfg["shape"][0] * cfg["shape"][1])]
+        cfg["mappers"] = []; cfg["funcs"] = []
+    reads = []
+    for _ in range(rng.randint(4, 14)):
+        w = rng.choice(["fit"] * 6 + ["inv"] * 3 + ["ds", "grids", "mapper0"])
+        reads.append([w, rng.choice(FIT_Q if w == "fit" else GRAPH_Q["mapper" if w.startswith("mapper") else w])])
+    return {"op": "fit", "cfg": cfg, "reads": reads}
+
+# ----------------------------------------------------------------------------- triangulation meshes (Delaunay / Voronoi)
+MESH_Q = {
+    "mesh": ["voronoi_pixel_areas", "voronoi_pixel_areas_for_split", "split_cross", "areas_for_magnification", "edge_pixel_list",
+             "neighbors", "pixels", "interp"],
+    "mapper": ["mapping_matrix", "pix_sub_weights", "pix_sub_weights_split_cross", "pix_indexes_for_sub_slim_index",
+               "pix_sizes_for_sub_slim_index", "pix_weights_for_sub_slim_index", "regularization_matrix", "edge_pixel_list",
+               "neighbors", "params", "unique_mappings"],
+    "valued": ["magnification_via_mesh_from", "magnification_via_interpolation_from", "mapped_reconstructed_image_from",
+               "values_masked", "max_pixel_centre", "interp", "max_pixel_list_from"],
+    "inv": ["curvature_matrix", "regularization_matrix", "curvature_reg_matrix", "reconstruction", "mapped_reconstructed_image",
+            "regularization_term", "log_det_regularization_matrix_term", "data_vector"],
+}
+def mesh_points(cfg):
+    return np.array(cfg["points"], dtype=float).reshape(-1, 2)
+def build_mesh_graph(cfg):
+    """mask + image-plane grid + a Delaunay / Voronoi mesh from the caller's points + mapper + valued mapper + inversion"""
+    aa = import_aa()
+    H, W = cfg["shape"]
+    m = np.ones((H, W), bool); m[1:H - 1, 1:W - 1] = False
+    for (y, x) in cfg.get("holes", []): m[y, x] = True
+    mask = aa.Mask2D(mask=m, pixel_scales=1.0)
+    grid = aa.Grid2D.from_mask(mask=mask, over_sampling=aa.OverSamplingUniform(sub_size=1))
+    pts = mesh_points(cfg)
+    cls = aa.Mesh2DDelaunay if cfg["kind"] == "delaunay" else aa.Mesh2DVoronoi
+    mesh = cls(values=pts)
+    mg = aa.MapperGrids(mask=mask, source_plane_data_grid=grid, source_plane_mesh_grid=mesh)
+    reg = {"constant": lambda: aa.reg.Constant(coefficient=2.0), "split": lambda: aa.reg.ConstantSplit(coefficient=2.0),
+           "none": lambda: None}[cfg["reg"]]()
+    mapper = aa.Mapper(mapper_grids=mg, over_sampler=aa.OverSamplerUniform(mask=mask, sub_size=1), regularization=reg)
+    vals = np.array(cfg["values"], dtype=float)
+    pm = None if cfg.get("pixel_mask") is None else np.array(cfg["pixel_mask"], dtype=bool)
+    valued = aa.MapperValued(mapper=mapper, values=vals, mesh_pixel_mask=pm)
+    dv = np.array(cfg["data"], dtype=float).reshape(H, W)
+    nv = np.full((H, W), 2.0)
+    data = aa.Array2D(values=dv, mask=mask); noise = aa.Array2D(values=nv, mask=mask)
+    pv = np.array(PSF); psf = aa.Kernel2D.no_mask(values=pv, pixel_scales=1.0)
+    osd = aa.OverSamplingDataset(uniform=aa.OverSamplingUniform(sub_size=1), pixelization=aa.OverSamplingUniform(sub_size=1))
+    ds = aa.Imaging(data=data, noise_map=noise, psf=psf, over_sampling=osd)
+    settings = aa.SettingsInversion(use_w_tilde=bool(cfg.get("w_tilde", False)), no_regularization_add_to_curvature_diag_value=1.0)
+    inv = aa.Inversion(dataset=ds, linear_obj_list=[mapper], settings=settings)
+    owned = [m, pts, vals, pm, dv, nv, pv, mask, grid, data, noise, psf, osd, settings]
+    return {"mesh": mesh, "mapper": mapper, "valued": valued, "inv": inv}, owned
+def mesh_read(parts, who, name, cfg):
+    try:
+        t = parts[who]
+        if name == "interp":
+            v = t.interpolated_array_from(values=np.array(cfg["values"], dtype=float), shape_native=(5, 4)) if who == "mesh" \
+                else t.interpolated_array_from(shape_native=(5, 4))
+        elif name == "magnification_via_interpolation_from": v = t.magnification_via_interpolation_from(shape_native=(7, 6))
+        elif name == "max_pixel_list_from": v = t.max_pixel_list_from(total_pixels=3)
+        elif name.endswith("_from"): v = getattr(t, name)()
+        else: v = getattr(t, name)
+        if name == "neighbors": v = [np.asarray(v), getattr(v, "sizes", None)]
+        if name in ("pix_sub_weights", "pix_sub_weights_split_cross"): v = [v.mappings, v.sizes, v.weights]
+        if name == "unique_mappings": v = [v.data_to_pix_unique, v.data_weights, v.pix_lengths]
+        try: return str(enc_val(v))
+        except TypeError: return str(sorted(leaves(v, "v").items()))
+    except Exception as e:   # noqa
+        return "EXC " + type(e).__name__
+_MESH_TWINS = {}
+def run_mesh(inp):
+    cfg = inp["cfg"]
+    tw = _MESH_TWINS.setdefault(str(sorted(cfg.items())), {})
+    parts, owned = build_mesh_graph(cfg)
+    fp0 = leaves(owned)
+    bad = []; nexc = 0
+    for who, name in inp["reads"]:
+        if (who, name) not in tw:
+            tparts, _ = build_mesh_graph(cfg)
+            tw[(who, name)] = mesh_read(tparts, who, name, cfg)
+        got = mesh_read(parts, who, name, cfg)
+        nexc += got.startswith("EXC")
+        if got != tw[(who, name)]: bad.append(f"{who}.{name} differs from the never-read twin")
+    ch = leaves_changed(fp0, leaves(owned))
+    if ch: bad.append("caller-owned input changed: " + ",".join(ch[:4]))
+    tally("mesh reads raising (canonical exception)", nexc); tally("mesh reads", len(inp["reads"]))
+    res = {"coq": None, "out": {"reads": len(inp["reads"]), "bad": bad[:5]}, "py_ok": not bad, "nontrivial": len(inp["reads"]) >= 3,
+           "kind": "mesh:" + cfg["kind"] + ":" + cfg["reg"]}
+    if bad: res["detail"] = "; ".join(bad[:5])
+    return res
+def gen_mesh(rng):
+    H, W = rng.randint(5, 6), rng.randint(5, 6)
+    n = rng.randint(6, 11)
+    # points inside the image-plane extent, pairwise distinct, on a jittered lattice so that no three are collinear by accident;
+    # the convex-hull points own unbounded Voronoi cells (area -1): every mesh has edge cells
+    cells = [(y, x) for y in range(4) for x in range(4)]
+    rng.shuffle(cells)
+    pts = []
+    for (y, x) in cells[:n]:
+        pts += [round((1.5 - y) * (H - 2) / 4.0 + rng.uniform(-0.2, 0.2), 3), round((x - 1.5) * (W - 2) / 4.0 + rng.uniform(-0.2, 0.2), 3)]
+    kind = rng.choice(["delaunay", "voronoi"])
+    cfg = {"shape": [H, W], "holes": [], "kind": kind, "points": pts, "reg": rng.choice(["constant", "split", "split", "none"]),
+           "values": [rng.randint(1, 9) for _ in range(n)], "pixel_mask": rng.choice([None, [False] * n]),
+           "data": [rng.randint(0, 20) for _ in range(H * W)], "w_tilde": rng.random() < 0.3}
+    who = ["mesh"] * 5 + ["mapper"] * 3 + ["valued"] * 3 + ["inv"]
+    reads = []
+    for _ in range(rng.randint(4, 12)):
+        w = rng.choice(who)
+        reads.append([w, rng.choice(MESH_Q[w])])
+        if rng.random() < 0.2: reads.append(list(reads[-1]))
+    return {"op": "mesh", "cfg": cfg, "reads": reads}
+
 # ----------------------------------------------------------------------------- seeded simulation
 def run_seed(inp):
     aa = import_aa()
@@ -801,29 +1230,42 @@ def run_seed(inp):
     H, W = inp["shape"]
     img = np.array(inp["image"], dtype=float).reshape(H, W)
     outs = []
+    bad = []
     for st in inp["states"]:
         np.random.seed(st)
         for _ in range(st % 7): np.random.random()
-        image = aa.Array2D.no_mask(values=img.copy(), pixel_scales=1.0)
+        iv = img.copy()
+        image = aa.Array2D.no_mask(values=iv, pixel_scales=1.0)
+        owned = [iv, image]
         if inp["via"] == "simulator":
-            psf = aa.Kernel2D.no_mask(values=PSF if inp.get("psf") else [[1.0]], pixel_scales=1.0)
+            # the caller's psf: slim-stored, NOT normalised (sum 6): the simulator normalises a copy (normalize_psf=True default)
+            pv = np.array(PSF if inp.get("psf") else [[3.0]])
+            psf = aa.Kernel2D.no_mask(values=pv, pixel_scales=1.0)
+            owned += [pv, psf]; fp = leaves(owned)
             sim = aa.SimulatorImaging(exposure_time=inp["exposure"], background_sky_level=inp["sky"], psf=psf,
                                       noise_seed=inp["seed"], add_poisson_noise_to_data=True)
             ds = sim.via_image_from(image=image)
             outs.append(bits(ds.data.native._array) + bits(ds.noise_map.native._array))
         elif inp["via"] == "interferometer":
             uv = np.array([[1.0, 2.0], [3.0, -1.0], [0.5, 0.25], [-2.0, 1.0]])
+            owned += [uv]; fp = leaves(owned)
             sim = aa.SimulatorInterferometer(uv_wavelengths=uv, exposure_time=inp["exposure"], noise_sigma=0.5, noise_seed=inp["seed"])
             ds = sim.via_image_from(image=image)
             outs.append(bits(np.real(ds.data._array)) + bits(np.imag(ds.data._array)))
         elif inp["via"] == "poisson":
             exp = aa.Array2D.full(fill_value=inp["exposure"], shape_native=(H, W), pixel_scales=1.0)
+            owned += [exp]; fp = leaves(owned)
             outs.append(bits(preprocess.poisson_noise_via_data_eps_from(data_eps=image, exposure_time_map=exp, seed=inp["seed"])))
         else:
+            fp = leaves(owned)
             outs.append(bits(preprocess.gaussian_noise_via_shape_and_sigma_from(shape=(H * W,), sigma=2.0, seed=inp["seed"])))
+        ch = leaves_changed(fp, leaves(owned))
+        if ch: bad.append("caller-owned input changed: " + ",".join(ch[:4]))
     coq = f"(KSeed {cz(inp['seed'])} {clist([carr(o) for o in outs])})"
-    return {"coq": coq, "out": [zlib.crc32(str(o).encode()) for o in outs], "py_ok": None, "nontrivial": True,
-            "kind": "seed:" + inp["via"] + (":unseeded" if inp["seed"] == -1 else "")}
+    res = {"coq": coq, "out": [zlib.crc32(str(o).encode()) for o in outs], "py_ok": False if bad else None, "nontrivial": True,
+           "kind": "seed:" + inp["via"] + (":unseeded" if inp["seed"] == -1 else "")}
+    if bad: res["detail"] = "; ".join(bad[:3])
+    return res
 
 def run_case(inp):
     op = inp["op"]
@@ -832,6 +1274,10 @@ def run_case(inp):
     if op == "graph": return run_graph(inp)
     if op == "seed": return run_seed(inp)
     if op == "dsderive": return run_dsderive(inp)
+    if op == "mesh": return run_mesh(inp)
+    if op == "reuse": return run_reuse(inp)
+    if op == "edit": return run_edit(inp)
+    if op == "fit": return run_fit(inp)
     raise ValueError(op)
 
 # ----------------------------------------------------------------------------- generators
@@ -877,8 +1323,11 @@ def gen_history(rng, n_steps, flavour, allow_d8=False):
         g.steps.append({"o": "new", "kind": "nd", "shape": shape, "v": v, "dtype": dt})
         g.inputs.append({"kind": "nd", "for": kind, "mask": mask, "native": native, "shape": shape, "wrong": wrong})
         return len(g.inputs) - 1
-    def construct(i_or_j, from_obj, kind, mask, sn, ok=True, shape_in=None, native_in=None):
-        g.steps.append({"o": "construct", "src": ["obj" if from_obj else "in", i_or_j], "cls": kind, "mask": mask, "store_native": sn})
+    def construct(i_or_j, from_obj, kind, mask, sn, ok=True, shape_in=None, native_in=None, normalize=False, via="ctor", tainted=False):
+        st = {"o": "construct", "src": ["obj" if from_obj else "in", i_or_j], "cls": kind, "mask": mask, "store_native": sn}
+        if normalize: st["normalize"] = True
+        if via != "ctor": st["via"] = via
+        g.steps.append(st)
         if not ok: return None
         per = KINDS[kind].per
         H, W = len(mask), len(mask[0])
@@ -886,7 +1335,8 @@ def gen_history(rng, n_steps, flavour, allow_d8=False):
         elif kind == "mask": shape = [H, W]
         elif sn: shape = [H, W] + ([2] if per == 2 else [])
         else: shape = [count_false(mask)] + ([2] if per == 2 else [])
-        g.objs.append({"kind": kind, "mask": mask, "native": sn if kind not in ("vis",) else False, "shape": shape, "sliced": False, "reads": set()})
+        g.objs.append({"kind": kind, "mask": mask, "native": sn if kind not in ("vis",) else False, "shape": shape, "sliced": False, "reads": set(),
+                       "tainted": bool(normalize or tainted)})     # tainted: contents are no longer integers (normalised kernel)
         if kind == "mask": g.objs[-1]["native"] = True
         return len(g.objs) - 1
 
@@ -907,7 +1357,7 @@ def gen_history(rng, n_steps, flavour, allow_d8=False):
         i = new_nd(kind, mask, native, wrong)
         sn = rng.random() < 0.5 if kind not in ("vis", "mapper") else False
         if flavour == "dataset" and not all(not b for r in mask for b in r): sn = True if rng.random() < 0.6 else sn
-        j = construct(i, False, kind, mask, sn, ok=not wrong, shape_in=g.inputs[i]["shape"])
+        j = construct(i, False, kind, mask, sn, ok=not wrong, shape_in=g.inputs[i]["shape"], normalize=(kind == "kernel" and rng.random() < 0.5))
         return i, j
     if flavour != "settings":
         open_struct()
@@ -934,7 +1384,7 @@ def gen_history(rng, n_steps, flavour, allow_d8=False):
             for q in k.cached: cands.append(("read", j, q, 3))
             for q in k.plain: cands.append(("plain", j, q, 1))
             cands.append(("peek_obj", j, None, 1))
-            if k.arith: cands.append(("arith", j, None, 3))
+            if k.arith and not o.get("tainted"): cands.append(("arith", j, None, 3))
             if k.derive:
                 cands.append(("copy", j, None, 1))
                 if o["shape"][0] >= 2: cands.append(("slice", j, None, 2))
@@ -943,7 +1393,10 @@ def gen_history(rng, n_steps, flavour, allow_d8=False):
             if o["kind"] in ("array", "dataset") and not o["sliced"] and H >= 3 and W >= 3:
                 if not all(all(r[1:W - 1]) for r in o["mask"][1:H - 1]): cands.append(("trim", j, None, 3 if o["kind"] == "dataset" else 1))
             if o["kind"] == "array" and not o["sliced"] and H >= 3 and W >= 3: cands.append(("alias", j, None, 4 if flavour == "dataset" else 0.3))
-            if o["kind"] in ("array", "grid", "kernel", "vector") and not o["sliced"]: cands.append(("reconstruct", j, None, 1))
+            if o["kind"] in ("array", "grid", "kernel", "vector") and not o["sliced"]:
+                cands.append(("reconstruct", j, None, 1))
+                cands += [("to_native", j, None, 0.8), ("to_slim", j, None, 0.8)]       # derived structures: x.native / x.slim
+                if o["kind"] == "kernel": cands.append(("normalized", j, None, 2))       # psf.normalized
             if o["kind"] == "valued": cands += [("values_masked", j, None, 4), ("maprecon", j, None, 4)]
         for i, x in enumerate(g.inputs):
             cands.append(("peek_in", i, None, 2))
@@ -991,10 +1444,18 @@ def gen_history(rng, n_steps, flavour, allow_d8=False):
             o = g.objs[idx]; H, W = len(o["mask"]), len(o["mask"][0])
             if o["native"]: mask = rand_mask(rng, H, W, p=0.3) if rng.random() < 0.6 else o["mask"]
             else: mask = o["mask"]
-            construct(idx, True, o["kind"], mask, rng.random() < 0.5)
+            construct(idx, True, o["kind"], mask, rng.random() < 0.5, normalize=(o["kind"] == "kernel" and rng.random() < 0.4),
+                      tainted=o.get("tainted"))
+        elif what in ("to_native", "to_slim"):
+            o = g.objs[idx]
+            construct(idx, True, "array" if o["kind"] == "kernel" else o["kind"], o["mask"], what == "to_native", via=what[3:], tainted=o.get("tainted"))
+        elif what == "normalized":
+            o = g.objs[idx]
+            construct(idx, True, "kernel", o["mask"], False, normalize=True, via="normalized")
         elif what == "construct_again":
             x = g.inputs[idx]
-            construct(idx, False, x["for"], x["mask"], rng.random() < 0.5 if x["for"] not in ("vis",) else False, shape_in=x["shape"])
+            construct(idx, False, x["for"], x["mask"], rng.random() < 0.5 if x["for"] not in ("vis",) else False, shape_in=x["shape"],
+                      normalize=(x["for"] == "kernel" and rng.random() < 0.5))
     return g.steps
 
 
@@ -1010,7 +1471,16 @@ def corpus():
                          {"o": "construct", "src": ["in", 0], "cls": kind, "mask": cross, "store_native": False},
                          {"o": "peek_in", "i": 0},
                          {"o": "construct", "src": ["in", 0], "cls": kind, "mask": cross, "store_native": True}, {"o": "peek_in", "i": 0}]))
-    # D10: cached_property values must not travel into derived objects
+    # Kernel2D(values=<slim ndarray | slim Kernel2D>, normalize=True) / psf.normalized normalise IN PLACE: the array they write into
+    # must be the constructor's own copy
+    H.append(("norm", [{"o": "new", "kind": "nd", "shape": [9], "v": [0, 1, 0, 1, 2, 1, 0, 1, 0], "dtype": "float"},
+                       {"o": "construct", "src": ["in", 0], "cls": "kernel", "mask": ff, "store_native": False, "normalize": True},
+                       {"o": "peek_in", "i": 0},
+                       {"o": "construct", "src": ["in", 0], "cls": "kernel", "mask": ff, "store_native": False},
+                       {"o": "construct", "src": ["obj", 1], "cls": "kernel", "mask": ff, "store_native": False, "normalize": True},
+                       {"o": "peek_obj", "j": 1}, {"o": "construct", "src": ["obj", 1], "cls": "kernel", "mask": ff, "store_native": False,
+                                                   "normalize": True, "via": "normalized"},
+                       {"o": "peek_obj", "j": 1}, {"o": "peek_in", "i": 0}, {"o": "plain", "j": 1, "q": "native"}]))
     H.append(("D10", [{"o": "new", "kind": "nd", "shape": [2], "v": [1, 1, 2, 0], "dtype": "complex"},
                       {"o": "construct", "src": ["in", 0], "cls": "vis", "mask": ff, "store_native": False},
                       {"o": "read", "j": 0, "q": "amplitudes"}, {"o": "read", "j": 0, "q": "phases"},
@@ -1062,7 +1532,17 @@ def rand_cfg(rng):
     return {"shape": [H, W], "holes": [list(h) for h in holes], "data": [rng.randint(0, 20) for _ in range(H * W)],
             "noise": [rng.choice([1, 2, 4]) for _ in range(H * W)], "mappers": [list(m) for m in mappers],
             "w_tilde": rng.random() < 0.5, "positive": rng.random() < 0.3, "sub": rng.choice([1, 1, 2]),
-            "preloads": sorted(rng.sample(sorted(PRELOADABLE), rng.choice([0, 0, 1, 2])))}
+            "preloads": sorted(rng.sample(sorted(PRELOADABLE), rng.choice([0, 0, 1, 2]))),
+            "funcs": rand_funcs(rng, H * W - 2 * H - 2 * W + 4 - len(holes)), "force_edge": rng.random() < 0.7,
+            "edge_image": rng.random() < 0.15, "w_tilde_numpy": rng.random() < 0.2, "source_loop": rng.random() < 0.2}
+def rand_funcs(rng, npix):
+    """0-2 linear objects that are not mappers, before and / or after the mappers, unregularized most of the time"""
+    out = []
+    for _ in range(rng.choice([0, 0, 1, 1, 2])):
+        k = rng.randint(1, 2)
+        out.append({"pos": rng.choice(["before", "after"]), "cols": [rng.randint(0, 4) for _ in range(npix * k)],
+                    "coeff": rng.choice([None, None, 1.0])})
+    return out
 
 def gen_inputs(tier, rng):
     big = tier == "thorough"
@@ -1080,6 +1560,7 @@ def gen_inputs(tier, rng):
         cfg = rand_cfg(rng)
         cfg["positive"] = False
         cfg["preloads"] = []
+        cfg["funcs"] = []
         if len(cfg["mappers"]) == 1 or rng.random() < 0.5: cfg["mappers"][-1][2] = cfg["mappers"][-1][2] or 1.0
         pre = rng.choice(["PNone", "PCurv", "PDiag"] if cfg["w_tilde"] else ["PNone", "PCurv"])
         extra = {"PNone": [], "PCurv": ["QPre"], "PDiag": ["QPreDiag"]}[pre]
@@ -1125,6 +1606,14 @@ def gen_inputs(tier, rng):
         pre = rng.sample(dsq, rng.randint(1, 4))
         post = sorted(set(pre[:2] + rng.sample(dsq, rng.randint(1, 3))))
         yield {"op": "dsderive", "cfg": cfg, "pre_reads": pre, "derivs": derivs, "post_reads": post}
+    # triangulation meshes (Delaunay / Voronoi): random read orders over mesh / mapper / valued mapper / inversion
+    for k in range(240 if big else 24): yield gen_mesh(rng)
+    # object reuse: one dataset / mapper / settings / Preloads object serving several inversions
+    for k in range(200 if big else 20): yield gen_reuse(rng)
+    # read -> the user edits the object in place -> re-read
+    for k in range(400 if big else 40): yield gen_edit(rng)
+    # fits: FitImaging -> dataset -> inversion -> mappers
+    for k in range(240 if big else 24): yield gen_fit(rng)
     for k in range(120 if big else 18):
         H, W = rng.randint(2, 4), rng.randint(2, 4)
         vias = ["simulator", "poisson", "gaussian", "interferometer"]
